@@ -1,1 +1,3 @@
 import PV.Props.C15
+import PV.Props.C09
+import PV.Props.C10
